@@ -273,7 +273,7 @@ def run(ctx):
                     body, rm = thunk()
                     one_wf(pv, name, body, rm, combo)
     # malformed stream: truncations of well-formed bodies + hand-made invalid bodies
-    nsrc = 250 if quick else 3000
+    nsrc = 200 if quick else 3000
     srcs = list(wf_cases)
     ctx.rng.shuffle(srcs)
     for (pv, rm, stream, flags, opcode, bts, raw, name) in srcs[:nsrc]:
